@@ -34,6 +34,8 @@ def generic_check(mod, tier, seed):
     for prof in profiles:
         if not bins[prof]:
             continue
+        if hasattr(mod, "prepare"):
+            mod.prepare(cases, lambda rq: lv.run_harness(bins[prof], rq, tag=mod.PROP + prof + "prep")[0])
         reqs = [mod.request(c) for c in cases]
         resps, problems = lv.run_harness(bins[prof], reqs, tag=mod.PROP + prof)
         for pb in problems:
